@@ -116,6 +116,39 @@ def check_reads(rec, tf, exd, mode, lens=None, vals=None):
                 cat = b''.join(le_bytes(x) for x in parts if len(x))
                 if cat != sc[last][1]:
                     rec.violation('values:lazy:channel_chunks', '%s chunk stream differs from expected data' % p)
+    if mode == 'lazy' and len(exd) >= 1:
+        # chunk streams of all channels advanced in lock step, with a window read of another channel between two chunks
+        def lockstep():
+            paths = list(exd)
+            gens = {p: tf[split_path(p)[0]][split_path(p)[1]].data_chunks() for p in paths}
+            acc = {p: [] for p in paths}
+            live = list(paths)
+            turn = 0
+            while live:
+                for p in list(live):
+                    try:
+                        chunk = next(gens[p])
+                    except StopIteration:
+                        live.remove(p)
+                        continue
+                    x = chunk[:]
+                    if len(x):
+                        acc[p].append(le_bytes(x))
+                    q = paths[turn % len(paths)]
+                    turn += 1
+                    gq, cq = split_path(q)
+                    if len(tf[gq][cq]):
+                        tf[gq][cq].read_data(len(tf[gq][cq]) - 1, 1, scaled=False)
+            return acc
+        ok, acc = rec.guard('lazy:lockstep_chunks', lockstep)
+        if ok:
+            for p, eo in exd.items():
+                sc = eo['scalers'] if vals is None else vals[p]
+                last = sorted(sc)[-1]
+                if b''.join(acc[p]) != sc[last][1]:
+                    rec.violation('values:lazy:lockstep_chunks', '%s: chunk stream advanced in turn with the other channels\' '
+                                  'streams (and window reads in between) differs from expected data' % p)
+                    break
     if mode == 'lazy':
         def file_chunks():
             acc = {p: [] for p in exd}
@@ -149,6 +182,8 @@ def check(case, rec):
             rec.label('interleaved_flag_set')
         if any(e.get('hdr') != 'daqmx' for e in seg['entries']):
             rec.label('relisted_without_data')
+        if seg.get('meta', True) and not seg.get('newlist', True):
+            rec.label('redeclared_without_new_object_list')
         for e in seg_entries(seg):
             rec.label('kind=' + e['kind'], 'chan=' + ('raw' if e['chan_type'] == 'raw' else 'typed'),
                       'scalers=%d' % len(e['scalers']))
